@@ -78,6 +78,9 @@ class ReqWorld(World):
             "r3": {"origin": S["N1"], "destination": S["M1"]},
             "r5": {"origin": S["M2"], "destination": S["N2"]},
             "r6": {"origin": S["F2"], "destination": S["N2"]},
+            # requests that allow pooling (optional column of the request file); autonomous drivers allow it too
+            "p0": {"origin": S["M1"], "destination": S["N2"], "allows_pooling": True},
+            "p1": {"origin": S["A"], "destination": S["M2"], "allows_pooling": True},
         }
         requests = tuple(requests)
         self.request_specs = {k: dict(v, fleet_id=(fleets[0] if fleets else None)) for k, v in specs.items() if k in requests}
